@@ -47,6 +47,7 @@ func (d *drillmasterActor) onActorOf(ctx vivid.ActorContext, m *cm.ActorOf) {
 				descriptor.WithNamePrefix(m.Identity).WithName(m.Ability)
 			}))...,
 		)
+		d.members[m.Ability][m.Identity] = ref
 	}
 
 	ctx.Reply(ref)
